@@ -87,7 +87,26 @@ def run(tier):
     brej, bst = common.eval_records('C17_Brute', tiny, 'c17b', shards=16)
     # d must be the weight of some genuine logical operator (upper bound on the
     # true distance); the search shows that nothing lighter exists (lower bound)
-    wrej_all, wst = common.eval_records('C17_Witness', [r for r in recs if r['k'] > 0], 'c17w', shards=16)
+    # large codes (logical operators of weight >= 256, far beyond any search):
+    # the witness direction only - the reported d is the weight of a genuine
+    # logical operator among those the code lists
+    big = []
+    for name, size in ([('Toric3DCode', (2, 16, 16)), ('Planar3DCode', (2, 16, 16))] if tier == 'quick' else
+                       [('Toric3DCode', (2, 16, 16)), ('Planar3DCode', (2, 16, 16)),
+                        ('Toric3DCode', (3, 16, 17)), ('RotatedPlanar3DCode', (16, 16, 2)),
+                        ('Toric2DCode', (16, 17))]):
+        code = codes.build(name, size)
+        r = codes.project(code)
+        r['id'] = len(recs) + len(big)
+        r['_label'] = codes.label(name, size, None, None) + ' (witness only)'
+        r['_cost'] = r['n'] * 4
+        big.append(r)
+    wrej_all, wst = common.eval_records('C17_Witness', [r for r in recs if r['k'] > 0] + big, 'c17w',
+                                        shards=16, heap='6g')
+    for r in big:
+        if r['id'] in wrej_all:
+            v.reject(f"C17:{r['_label']}", {'label': r['_label'], 'd': r['d'], 'n': r['n'],
+                                            'failed_clauses': sorted(wrej_all[r['id']])})
     for r in recs:
         cl = set(rej.get(r['id'], ())) | set(brej.get(r['id'], ())) | set(wrej_all.get(r['id'], ()))
         if cl:
